@@ -17,7 +17,13 @@ Static rules (DESIGN.md §C02, engine sa/tabchain.py):
                 and `se` itself must be the bare radial Gaussian integral.
  feat-orders    the l-1 / l / l+1 projection selected for a contribution id by
                 generate_convolution_collection equals the l-shift of the radial integral that the
-                ladder assigns to that id; IFEAT pairs are (l-1 part, l+1 part) in that order
+                ladder assigns to that id; IFEAT pairs are (l-1 part, l+1 part) in that order;
+                POSITION: the element of feat_orders written for i-contribution k (index evaluated
+                abstractly: counters, `if (has_vj)` guards, struct fields) is the output position at which
+                generate_atc_integrals_all places the integrals of contribution k; ids without an arm
+                need an else or a calloc'ed array; the version-j block is 0
+ delegate-forward  a function of settings.py / plans.py that delegates to a same-module function forwards
+                every parameter the two share, unless it uses it itself (get_cider_exponent_gga -> nspin)
  alpha-degree   units-of-measure: degree (in exponent units) of each integral relative to the `se`
                 integral, corrected by the l-shift, equals SPEC_USPS[spec]/2; the sums inside the
                 kernels are homogeneous
@@ -363,6 +369,108 @@ def j_expected(spec, P0, S, E):
 # ----------------------------------------------------------------------------------------------
 # version i chain
 # ----------------------------------------------------------------------------------------------
+def eval_int_flow(tu, fname, prefix, fields_by_type=None):
+    """lenient abstract evaluation of a whole function (integer flow, struct fields, stores, calls)"""
+    ev = tc.Ev(tu)
+    ev.lenient = True
+    env = tc.new_env({p["id"]: prefix + str(p.get("name")) for p in tu.params(fname)})
+    if fields_by_type:
+        env["fields_by_type"] = dict(fields_by_type)
+    ev.block(tu.body(fname), env)
+    return ev, env
+
+
+def _index_syms(p):
+    return sorted({a[1] for a in p.atoms() if a[0] == "sym" and str(a[1]).startswith("int:")})
+
+
+def _rename(p, old, new):
+    out = {}
+    for m, c in p.t.items():
+        mm = tc._mono({(("sym", new) if a == ("sym", old) else a): e for a, e in m})
+        out[mm] = out.get(mm, 0) + c
+    return Poly(out)
+
+
+def rule_feat_orders_position(chk, ic, tu):
+    """the element of feat_orders written for i-contribution k is the element at the position where
+    generate_atc_integrals_all puts the integrals of contribution k (after the version-j block)"""
+    ev1, env1 = ic.producer
+    ladder_stores = [st for st in ic.fo_stores if any("icontrib_ids" in c for c in st["conds"])]
+    if not ladder_stores:
+        raise core.AnalysisError("%s: no store to feat_orders under the icontrib_ids ladder was evaluated "
+                                 "(skipped: %s)" % (ORDERS_FUNC, ev1.skipped[:2]))
+    fbt = {k.split("@")[0]: v for k, v in env1["fields"].items() if v is not None}
+    # consumer: the driver that lays out the outputs
+    drivers = []
+    for fname in tu.funcs:
+        if fname == LADDER_FUNC or tu.body(fname) is None:
+            continue
+        calls_it = any(x.get("kind") == "CallExpr" and cfacts.strip(cfacts.kids(x)[0]).get("referencedDecl", {}).get("name") == LADDER_FUNC
+                       for x in tc.walk_stmts(tu.body(fname)))
+        if calls_it:
+            drivers.append(fname)
+    if not drivers:
+        raise core.AnalysisError("no caller of %s in %s" % (LADDER_FUNC, C_CONV))
+    ps = tu.params(LADDER_FUNC)
+    int_pos = [i for i, p in enumerate(ps) if p.get("type", {}).get("qualType") == "int" and i != ic.id_param_index]
+    if len(int_pos) != 1:
+        raise core.AnalysisError("%s: expected exactly one integer parameter besides the id (the output offset)" % LADDER_FUNC)
+    off_pos = int_pos[0]
+    n = 0
+    for drv in sorted(drivers):
+        ev2, env2 = eval_int_flow(tu, drv, "q:", fbt)
+        for call in ev2.calls:
+            if call["name"] != LADDER_FUNC:
+                continue
+            idv, offv = call["args"][ic.id_param_index], call["args"][off_pos]
+            if idv is None or offv is None:
+                raise core.AnalysisError("%s: arguments of the call of %s could not be evaluated (%s)" % (
+                    drv, LADDER_FUNC, ev2.skipped[:2]))
+            ks = []
+            for a in idv.atoms():
+                if a[0] == "elem" and "icontrib_ids" in a[1]:
+                    ks += _index_syms(Poly(dict(a[2])))
+            if not idv.single() or len(ks) != 1:
+                chk.note("feat-orders", "%s" % drv, "call of %s with id %s is not per-contribution; position not compared" % (
+                    LADDER_FUNC, idv.text()[:60]))
+                continue
+            k2 = ks[0]
+            want = _rename(offv, k2, "<k>")
+            for st in ladder_stores:
+                k1s = _index_syms(st["index"])
+                inst = "position of feat_orders for contribution k: %s vs offset in %s" % (
+                    tc.norm_c(" ".join(tu.text_of(st["node"]).split())), drv)
+                n += 1
+                got = _rename(st["index"], k1s[0], "<k>") if len(k1s) == 1 else st["index"]
+                if got == want:
+                    chk.ok("feat-orders", inst, detail="index %s" % got.text())
+                else:
+                    chk.violation("feat-orders", F_CONV, ORDERS_FUNC,
+                                  "%s = %s at index %s" % (ic.orders_lhs, st["value"].text(), got.text()),
+                                  tu.line_of(st["node"]),
+                                  "the projection order of i-contribution k is written to feat_orders[%s], but %s stores the "
+                                  "integrals of contribution k at output position %s (solve_atc_coefs reads feat_orders at "
+                                  "the output position): with version-j outputs present the l-1/l+1 orders land on other "
+                                  "outputs" % (got.text(), drv, want.text()), instance=inst)
+    if n == 0:
+        raise core.AnalysisError("no per-contribution call of %s found to compare positions with" % LADDER_FUNC)
+    # version-j block: order 0 (explicitly or by calloc)
+    inst = "feat_orders of the version-j outputs is 0"
+    jst = [st for st in ic.fo_stores if not any("icontrib_ids" in c for c in st["conds"])]
+    if ic.fo_alloc == "calloc" and all(st["value"] == Poly() for st in jst):
+        chk.ok("feat-orders", inst, detail="calloc")
+    elif jst and all(st["value"] == Poly() for st in jst) and any(len(_index_syms(st["index"])) == 1 and
+                                                                 _rename(st["index"], _index_syms(st["index"])[0], "<k>") ==
+                                                                 Poly.atom(("sym", "<k>")) for st in jst):
+        chk.ok("feat-orders", inst, detail="explicit loop")
+    else:
+        chk.violation("feat-orders", F_CONV, ORDERS_FUNC, "feat_orders of version-j outputs", ic.orders_default_loc[3],
+                      "the entries of feat_orders for the version-j outputs (positions 0..nalpha-1) must be 0; they are %s" % (
+                          "written with " + ", ".join(st["value"].text() for st in jst) if jst else
+                          "never written and the array comes from %s" % ic.fo_alloc), instance=inst)
+
+
 class IChain:
     def __init__(self, chk, py, tu):
         self.tu = tu
@@ -422,15 +530,36 @@ class IChain:
                 self.orders[v] = tc.const_int(r)
                 self.orders_loc[v] = (F_CONV, ORDERS_FUNC, "if (%s == %s) %s = %s" % (ol["var"], v, tc.norm_c(tu.text_of(l)),
                                                                                       tc.const_int(r)), tu.line_of(a["node"]))
-        sa = tc.single_assignment(ol["orelse"]) if ol["orelse"] is not None else None
-        if sa is None or tc.const_int(sa[1]) is None:
-            raise core.AnalysisError("%s: the feat_orders ladder has no constant default" % ORDERS_FUNC)
-        lhs.add(tc.norm_c(tu.text_of(sa[0])))
-        if len(lhs) != 1 or "feat_orders" not in sorted(lhs)[0]:
-            raise core.AnalysisError("%s: ladder arms assign %s, expected one feat_orders element" % (ORDERS_FUNC, sorted(lhs)))
-        self.orders_default = tc.const_int(sa[1])
-        self.orders_default_loc = (F_CONV, ORDERS_FUNC, "else %s = %s" % (sorted(lhs)[0], self.orders_default),
-                                   tu.line_of(ol["node"]))
+        # abstract evaluation of the constructor: struct fields, allocation of feat_orders, positions written
+        self.producer = eval_int_flow(tu, ORDERS_FUNC, "p:")
+        self.fo_stores = [st for st in self.producer[1]["stores"] if ".feat_orders@" in st["root"]]
+        self.fo_alloc = None
+        for key, how in self.producer[1]["allocs"].items():
+            if ".feat_orders@" in key:
+                self.fo_alloc = how
+        self.orders_uninit = None
+        if ol["orelse"] is not None:
+            sa = tc.single_assignment(ol["orelse"])
+            if sa is None or tc.const_int(sa[1]) is None:
+                raise core.AnalysisError("%s: the else of the feat_orders ladder is not a constant assignment" % ORDERS_FUNC)
+            lhs.add(tc.norm_c(tu.text_of(sa[0])))
+            self.orders_default = tc.const_int(sa[1])
+            self.orders_default_loc = (F_CONV, ORDERS_FUNC, "else %s = %s" % (sorted(lhs)[0], self.orders_default),
+                                       tu.line_of(ol["node"]))
+        else:
+            # no else: the value for every other id is whatever the allocation left there
+            self.orders_default_loc = (F_CONV, ORDERS_FUNC, "feat_orders = %s(...); ladder without else" % self.fo_alloc,
+                                       tu.line_of(ol["node"]))
+            if self.fo_alloc == "calloc":
+                self.orders_default = 0
+            else:
+                self.orders_default = None
+                self.orders_uninit = "feat_orders is allocated with %s and the ladder has no else: the order of every " \
+                                     "contribution id without an arm is uninitialised memory" % self.fo_alloc
+        if not lhs or any("feat_orders" not in x for x in lhs):
+            raise core.AnalysisError("%s: ladder arms assign %s, expected elements of feat_orders" % (ORDERS_FUNC, sorted(lhs)))
+        # (arms that write different elements are judged by the position rule)
+        self.orders_lhs = "ccl->feat_orders[...]" if len(lhs) > 1 else sorted(lhs)[0]
         # evaluate integral functions
         self.ev = tc.Ev(tu, {"alpha": ONE, "expi": ONE, "expj": ONE})
         self.values = {}
@@ -609,7 +738,9 @@ def rule_chain_i(chk, py, tus):
         cid = ch.cid
         o = ic.order_of(cid)
         inst_f = "feat_orders[contrib %s] = %s vs %s" % (cid, o, fn)
-        if o == shift:
+        if o is None:
+            vio_at(chk, "feat-orders", ic.orders_default_loc, "contribution id %s (%s): %s" % (cid, fn, ic.orders_uninit), inst_f)
+        elif o == shift:
             chk.ok("feat-orders", inst_f)
         else:
             loc = ic.orders_loc.get(cid, ic.orders_default_loc)
@@ -640,6 +771,7 @@ def rule_chain_i(chk, py, tus):
             vio_at(chk, "alpha-degree", loc,
                    "integral for spec %s (%s) scales as lambda^%s relative to `se` (degree %s in exponent units, "
                    "l-shift %+d) but SPEC_USPS[%r] = %s" % (label, fn, lam, d[0] - d0[0], int(shift), s, usp), inst_d)
+    chk.guard(rule_feat_orders_position, ic, tu)
     return ic
 
 
@@ -859,6 +991,78 @@ def _eq_strs(t, var):
 
 
 # ----------------------------------------------------------------------------------------------
+# delegation: a wrapper forwards the parameters it shares with the function it delegates to
+# ----------------------------------------------------------------------------------------------
+DELEGATE_FILES = [SETTINGS, PLANS]
+
+
+def rule_delegate_forward(chk):
+    """F(p, ...) calls G(...) of the same module, G has a parameter of the same name p, the call does not pass
+    it, and F itself uses p only to validate it (if p ...: raise / assert): the caller's p is silently
+    replaced by G's default (get_cider_exponent_gga(..., nspin) -> get_cider_exponent(...) is the pattern)."""
+    n = 0
+    for rel in DELEGATE_FILES:
+        mod = chk.tree.py(rel)
+        top = {f.name: f for f in mod.body if isinstance(f, ast.FunctionDef)}
+        for F in [f for f in ast.walk(mod) if isinstance(f, ast.FunctionDef)]:
+            params = [a.arg for a in F.args.args + F.args.kwonlyargs if a.arg not in ("self", "cls")]
+            for call in pf.walk_no_nested(F):
+                if not isinstance(call, ast.Call):
+                    continue
+                cn = pf.call_name(call)
+                if cn not in top or top[cn] is F:
+                    continue
+                G = top[cn]
+                if any(isinstance(a, ast.Starred) for a in call.args) or any(k.arg is None for k in call.keywords):
+                    continue
+                gparams = [a.arg for a in G.args.args + G.args.kwonlyargs]
+                passed = set(gparams[:len(call.args)]) | {k.arg for k in call.keywords}
+                shared = [p_ for p_ in params if p_ in gparams]
+                if not shared:
+                    continue
+                for p_ in shared:
+                    n += 1
+                    inst = "%s:%s -> %s parameter %s" % (rel, pf.qualname(F), cn, p_)
+                    if p_ in passed:
+                        chk.ok("delegate-forward", inst)
+                        continue
+                    live = False
+                    for u in pf.walk_no_nested(F):
+                        if isinstance(u, ast.Name) and u.id == p_ and isinstance(u.ctx, ast.Load):
+                            q, guard = u, False
+                            while q is not None and q is not F:
+                                par = pf.parent(q)
+                                if isinstance(par, ast.If) and q is par.test and not par.orelse and \
+                                        all(isinstance(x, ast.Raise) for x in par.body):
+                                    guard = True
+                                if isinstance(par, ast.Assert):
+                                    guard = True
+                                q = par
+                            if not guard:
+                                live = True
+                    if live:
+                        chk.ok("delegate-forward", inst + " (used by the wrapper itself)", nontrivial=False)
+                    else:
+                        chk.violation("delegate-forward", rel, pf.qualname(F), pf.src(call)[:150], call.lineno,
+                                      "%s accepts %r (and only validates it) but delegates to %s, which also takes %r, "
+                                      "without forwarding it: the callee silently uses its default %r=%s" % (
+                                          pf.qualname(F), p_, cn, p_, p_, _default_of(G, p_)), instance=inst)
+    chk.count("delegating calls with shared parameters", n)
+
+
+def _default_of(G, name):
+    pos = G.args.args
+    d = G.args.defaults
+    for a, dv in zip(pos[len(pos) - len(d):], d):
+        if a.arg == name:
+            return pf.src(dv)
+    for a, dv in zip(G.args.kwonlyargs, G.args.kw_defaults):
+        if a.arg == name and dv is not None:
+            return pf.src(dv)
+    return "<required>"
+
+
+# ----------------------------------------------------------------------------------------------
 def _analyse_own(chk):
     chk.rule("chain-j", "spec -> VJ_ID_MAP -> case value -> stored coefficient == documented Gaussian moment")
     chk.rule("chain-j-twin", "_gq and _qg layouts store identical value and derivative per id")
@@ -866,6 +1070,8 @@ def _analyse_own(chk):
                         "documented kernel relations; l-1/l+1 slot order")
     chk.rule("feat-orders", "feat_orders of a contribution id == l-shift of its radial integral")
     chk.rule("alpha-degree", "units of measure of the C kernels == SPEC_USPS")
+    chk.rule("delegate-forward", "a function that delegates to a same-module function forwards the parameters they share "
+                                 "(or uses them itself)")
     chk.rule("totality", "allowed specs have ids, USPs, contributions, C cases/arms, ueg branches")
     py = PyTables(chk.tree)
     tus = cfacts.load_all(chk.tree, [C_COEFS, C_CONV], jobs=2)
@@ -887,11 +1093,13 @@ def _analyse_own(chk):
     chk.guard(_i)
     chk.guard(_t)
     chk.guard(rule_ueg, py)
+    chk.guard(rule_delegate_forward)
     chk.floor("chain-j", 12, "4 j specs + 4 k specs (alias) x 2 layouts, minus nothing; 16 today")
     chk.floor("chain-j-twin", 4, "4 case values")
     chk.floor("chain-i", 10, "6 scalar specs + 2 vector specs x 2 parts")
-    chk.floor("feat-orders", 9, "one per resolved contribution except duplicates")
+    chk.floor("feat-orders", 12, "9 contribution ids + 3 position stores + the j block")
     chk.floor("alpha-degree", 12, "9 non-reference i integrals + 3x2 j coefficients")
+    chk.floor("delegate-forward", 15, "22 delegating calls with shared parameters in settings.py / plans.py")
     chk.floor("totality", 40, "ids, usps, contributions, arms, cases, ueg branches")
     chk.extra["reference"] = {"design_endpoints": {k: v for k, v in DESIGN_ENDPOINTS.items()},
                               "localisation_snapshot": {k: {str(a): b for a, b in v.items()} for k, v in SNAP.items()},
@@ -903,6 +1111,8 @@ def _analyse_own(chk):
         "the ctypes argument order of the calls that carry the ids is checked by C18 (E-ffi); here only the position "
         "of the id argument of cider_coefs_gto_* is resolved",
         "libm pow/sqrt/tgamma have their mathematical meaning",
+        "solve_atc_coefs indexes feat_orders by the output position beta of ovlp_mats, and the `offset` argument of "
+        "generate_atc_integrals_vi is that position (both are the nbeta axis; read on the pinned tree, not derived)",
         "a loop body is interpreted once with its induction variable as a free index (the evaluated bodies carry no "
         "scalar across iterations; a loop-carried scalar is an analysis error)",
     ]
@@ -916,6 +1126,8 @@ def _analyse_own(chk):
 
 def analyse(chk):
     _analyse_own(chk)
+    chk.guard(lambda c_: core.include_findings(c_, 'C05', files=['ciderpress/dft/lcao_nldf_generator.py', 'ciderpress/dft/lcao_interpolation.py', 'ciderpress/dft/lcao_convolutions.py'], rules=['py-zeroinit'],
+                                               why='accumulate-only native outputs need a zeroed buffer, otherwise features contain the previous call\'s results'))
     chk.guard(lambda c_: core.include_findings(c_, 'C10', files=['ciderpress/lib/mod_cider/cider_coefs.c', 'ciderpress/lib/mod_cider/convolutions.c', 'ciderpress/lib/mod_cider/conv_interpolation.c', 'ciderpress/lib/mod_cider/fast_sdmx.c', 'ciderpress/lib/mod_cider/sph_harm.c'], rules=None,
                                                why='a data race in the anchored feature kernels makes the features schedule dependent'))
 
@@ -958,7 +1170,34 @@ def mutants(tree):
                expect="chain-i"),
         Mutant("case loses break (qg)", F_COEFS, fn=_drop_break, expect="totality"),
         Mutant("layouts disagree", F_COEFS, fn=_qg_variant, expect="chain-j"),
+        Mutant("feat_orders written at the contribution index", F_CONV, "ccl->feat_orders[offset] = -1;", "ccl->feat_orders[ia] = -1;",
+               expect="feat-orders"),
+        Mutant("feat_orders ladder loses its else (malloc'ed array)", F_CONV,
+               " else {\n            ccl->feat_orders[offset] = 0;\n        }\n        offset++;", "\n        offset++;",
+               expect="feat-orders"),
+        Mutant("driver forgets the version-j block when placing i integrals", F_CONV,
+               "        generate_atc_integrals_vj(ccl);\n        offset += ccl->nalpha;", "        generate_atc_integrals_vj(ccl);",
+               expect="feat-orders"),
+        Mutant("version-j orders initialised to 1", F_CONV, "        for (ia = 0; ia < nalpha; ia++) {\n            ccl->feat_orders[offset] = 0;",
+               "        for (ia = 0; ia < nalpha; ia++) {\n            ccl->feat_orders[offset] = 1;", expect="feat-orders"),
+        Mutant("gga exponent delegates without nspin", SETTINGS, fn=_gga_delegates, expect="delegate-forward"),
     ]
+
+
+def _gga_delegates(text):
+    head = "def get_cider_exponent_gga("
+    if head not in text:
+        return None
+    i = text.index(head)
+    a = text.find("    if isinstance(rho, np.ndarray):", i)
+    b = text.find("    return ascale, dadrho, dadsigma\n", i)
+    if a < 0 or b < 0:
+        return None
+    new = ("    tau = np.zeros_like(rho) if isinstance(rho, np.ndarray) else 0.0\n"
+           "    ascale, dadrho, dadsigma, _ = get_cider_exponent(\n"
+           "        rho, sigma, tau, a0=a0, grad_mul=grad_mul, tau_mul=0.0, rhocut=rhocut\n"
+           "    )\n")
+    return text[:a] + new + text[b:]
 
 
 def _swap_targets(text):
